@@ -539,3 +539,19 @@ func baselineFieldType(pkgSuffix, typeName, field string) string {
 	}
 	return baselineFieldTypes[pkgSuffix+"|"+typeName][field]
 }
+
+// baselineHasParam: the function had a parameter of that name on the pinned tree.
+func baselineHasParam(fn *ssa.Function, name string) bool {
+	loadBaseline()
+	pkg, recv, _ := funcKey(fn)
+	b, ok := baselineFuncs[pkg+"|"+recv+"|"+cname(fn)]
+	if !ok {
+		return false
+	}
+	for _, p := range b.Params {
+		if p == name {
+			return true
+		}
+	}
+	return false
+}
